@@ -159,6 +159,13 @@ func (l *LuaEnvironment) enableOnlySafeFunctions() {
 	if strMod, ok := l.lState.GetGlobal(lua.StringLibName).(*lua.LTable); ok {
 		strMod.RawSetString("rep", lua.LNil)
 		strMod.RawSetString("dump", lua.LNil)
+		// The string library table doubles as the metatable of every string,
+		// with itself as __index, so ("").__index would hand the real table
+		// to a script. Give strings a separate metatable instead.
+		strMeta := l.lState.NewTable()
+		strMeta.RawSetString("__index", strMod)
+		l.lState.SetMetatable(lua.LString(""), strMeta)
+		strMod.RawSetString("__index", lua.LNil)
 		l.protectModule(strMod, lua.StringLibName)
 	}
 
@@ -184,8 +191,15 @@ func (l *LuaEnvironment) enableOnlySafeFunctions() {
 // protectModule protects the specified module from being modified by setting a
 // protected metatable with __newindex and __metatable fields.
 func (l *LuaEnvironment) protectModule(tbl *lua.LTable, moduleName string) {
+	// Scripts are handed an empty proxy for the module: reads fall through to
+	// the real table via __index, while every write (including to names the
+	// module already defines, which would bypass __newindex on the real
+	// table) is refused.
+	proxy := l.lState.NewTable()
 	mt := l.lState.NewTable()
-	l.lState.SetMetatable(tbl, mt)
+	l.lState.SetMetatable(proxy, mt)
+	l.lState.SetGlobal(moduleName, proxy)
+	l.lState.SetField(mt, "__index", tbl)
 	l.lState.SetField(mt, "__newindex", l.lState.NewFunction(func(l *lua.LState) int {
 		varName := l.ToString(2)
 		l.RaiseError("attempt to modify read-only table '%s.%s'", moduleName, varName)
